@@ -31,9 +31,15 @@ var identityTable = map[string][]string{
 	"MUL/R/-1/neg":      {"Int", "Uint", "Float"},
 	"MUL/L/-1/neg":      {"Int", "Uint", "Float"},
 	"QUO/R/1/same":      {"Int", "Uint", "Float"},
-	"QUO/R/-1/neg":      {"Int", "Uint", "Float"},
-	"REM/R/1/zero":      {"Int", "Uint"},
-	"REM/R/-1/zero":     {"Int", "Uint"},
+	// isLiteralNumber(c, -1) holds for an unsigned constant equal to 2^64-1 (all bits set): that is -1 modulo 2^64
+	// for +, -, *, &, |, ^, &^ — but division and remainder are not modular: x / (2^64-1) is 0 or 1, not -x
+	"QUO/R/-1/neg":          {"Int", "Float"},
+	"QUO/R/-1/delegate:MUL": {"Int", "Float"},
+	// Go rejects x / 0 and x % 0 for integer x only: a float or complex variable divided by a constant zero is Inf or NaN
+	"QUO/R/0/error":         {"Int", "Uint"},
+	"REM/R/0/error":         {"Int", "Uint"},
+	"REM/R/1/zero":          {"Int", "Uint"},
+	"REM/R/-1/zero":         {"Int"},
 	"AND/R/0/zero":      {"Int", "Uint"},
 	"AND/L/0/zero":      {"Int", "Uint"},
 	"AND/R/-1/same":     {"Int", "Uint"},
@@ -184,14 +190,33 @@ func ruleShortcuts(c *Ctx, short string, opExt map[*types.Func]string, rule stri
 				if !ok {
 					return true
 				}
-				for _, atom := range orAtoms(ifs.Cond) {
-					cexpr, nval, ok := literalTest(info, atom)
-					if !ok {
+				for _, disj := range orAtoms(ifs.Cond) {
+					// a disjunct may be a conjunction: the test on the constant and guards on the operand's category
+					var atom, cexpr ast.Expr
+					nval := ""
+					var guards []ast.Expr
+					for _, a := range andAtoms(disj) {
+						if ce, nv, ok := literalTest(info, a); ok && atom == nil {
+							atom, cexpr, nval = a, ce, nv
+						} else {
+							guards = append(guards, a)
+						}
+					}
+					if atom == nil {
 						continue
 					}
+					excluded, onlyCats := categoryGuards(info, guards)
 					res, resNode := classifyShortcutBody(info, di, ifs.Body, lastP, prevP)
+					if strings.HasPrefix(res, "delegate:") {
+						// return c.otherOp(same operands): an identity only where `x op c` == `x otherOp c`
+						res = "delegate:" + opExt[delegateCallee(info, ifs.Body)]
+					}
 					if res == "error" {
-						continue
+						// a compile-time rejection is judged like a rewrite: it is exact only for the categories
+						// for which Go rejects the same expression (division by a constant zero: integers only)
+						if _, listed := identityTable[fmt.Sprintf("%s/R/%s/error", op, nval)]; !listed || di.rootOf(info, cexpr, 0) != lastP {
+							continue
+						}
 					}
 					root := di.rootOf(info, cexpr, 0)
 					side := ""
@@ -215,7 +240,7 @@ func ruleShortcuts(c *Ctx, short string, opExt map[*types.Func]string, rule stri
 						reach = []string{"String"}
 					} else {
 						for _, k := range []string{"Int", "Uint", "Float", "Complex"} {
-							if cats[k] {
+							if cats[k] && !excluded[k] && (len(onlyCats) == 0 || onlyCats[k]) {
 								reach = append(reach, k)
 							}
 						}
@@ -320,7 +345,70 @@ func classifyShortcutBody(info *types.Info, di *defIndex, body *ast.BlockStmt, l
 			case strings.HasSuffix(n, "ForSideEffects"):
 				return "same", ret
 			}
+			// delegation to another compile function with the same operands
+			if len(call.Args) == 2 && identOf(call.Args[0]) != nil && identOf(call.Args[1]) != nil &&
+				info.Uses[identOf(call.Args[0])] == prevP && info.Uses[identOf(call.Args[1])] == lastP {
+				return "delegate:", ret
+			}
 		}
 	}
 	return "", ret
+}
+
+// delegateCallee returns the function called by `return c.f(a, b)` at the end of body.
+func delegateCallee(info *types.Info, body *ast.BlockStmt) *types.Func {
+	if len(body.List) == 0 {
+		return nil
+	}
+	ret, ok := body.List[len(body.List)-1].(*ast.ReturnStmt)
+	if !ok || len(ret.Results) != 1 {
+		return nil
+	}
+	if call, ok := unparen(ret.Results[0]).(*ast.CallExpr); ok {
+		return calleeOf(info, call)
+	}
+	return nil
+}
+
+// categoryGuards reads conjuncts of the forms reflect.Category(K) != xr.Uint, reflect.Category(K) == xr.Int and
+// reflect.IsCategory(K, xr.Int, ...): they restrict the operand categories that reach the shortcut. Conjuncts of
+// any other form restrict nothing (the obligation is then judged for every category of the function).
+func categoryGuards(info *types.Info, guards []ast.Expr) (excluded, only map[string]bool) {
+	excluded, only = map[string]bool{}, map[string]bool{}
+	catOf := func(e ast.Expr) string {
+		if o := usedObj(info, e); o != nil {
+			return kindCategory(o.Name())
+		}
+		return ""
+	}
+	for _, g := range guards {
+		switch x := unparen(g).(type) {
+		case *ast.BinaryExpr:
+			call, ok := unparen(x.X).(*ast.CallExpr)
+			if !ok {
+				continue
+			}
+			if fn := calleeOf(info, call); fn == nil || fn.Name() != "Category" {
+				continue
+			}
+			k := catOf(x.Y)
+			if k == "" {
+				continue
+			}
+			if x.Op == token.NEQ {
+				excluded[k] = true
+			} else if x.Op == token.EQL {
+				only[k] = true
+			}
+		case *ast.CallExpr:
+			if fn := calleeOf(info, x); fn != nil && fn.Name() == "IsCategory" && len(x.Args) >= 2 {
+				for _, a := range x.Args[1:] {
+					if k := catOf(a); k != "" {
+						only[k] = true
+					}
+				}
+			}
+		}
+	}
+	return
 }
